@@ -3,6 +3,7 @@ package c08
 
 import (
 	"fmt"
+	"strings"
 
 	"verif/internal/pipe"
 	"verif/internal/rig"
@@ -147,6 +148,9 @@ func judge(out *pipe.Outcome, ix *pipe.Index) pipe.Verdict {
 	ks := map[string]bool{}
 	for i := range out.Evs {
 		if out.Evs[i].Kind == rig.KProcCall {
+			if n := strings.Count(out.Evs[i].Note, "NILERR:"); n > 0 {
+				v.Stats["error_results_with_nil_error"] += int64(n)
+			}
 			for _, k := range out.Evs[i].Out {
 				ks[k] = true
 			}
